@@ -109,13 +109,14 @@ def case_to_coq(c):
                "false" if (expanded or c.get("t1") is None and expanded) else "true", opt_ty(c.get("t1"))))
 
 
-def coq_failing_batch(ck, name, case_terms, requires, check_fn="check_case", per_shard=60, timeout=1200, prelude=""):
-    """like Check.coq_failing, but the generated files are only interpreted (coqtop -batch -l): no .vo is written"""
+def coq_eval_batch(ck, name, case_terms, requires, fns=("check_case",), nshard=4, timeout=1200, prelude=""):
+    """Evaluate boolean functions of Corr.v on every case term with vm_compute; the generated files are only
+    interpreted (coqtop -batch -l, no .vo is written).  Returns {fn: sorted indices where fn is false} or None."""
     from concurrent.futures import ThreadPoolExecutor
     n = len(case_terms)
     if n == 0:
-        return []
-    nshard = min(NCPU, max(1, n // per_shard))
+        return {f: [] for f in fns}
+    nshard = max(1, min(nshard, n // 50 or 1))
     idxs = [list(range(i, n, nshard)) for i in range(nshard)]
 
     def run(k):
@@ -126,24 +127,27 @@ def coq_failing_batch(ck, name, case_terms, requires, check_fn="check_case", per
                 fh.write("Require Import %s.\n" % r)
             fh.write("Local Open Scope N_scope.\n" + prelude + "\n")
             fh.write("Definition cases__ : list case := [\n%s].\n" % ";\n".join(case_terms[i] for i in ids))
-            fh.write("Definition failing__ := (fix go (cs : list case) (i : N) : list N := match cs with [] => [] | c :: r => "
-                     "if %s c then go r (i + 1) else i :: go r (i + 1) end) cases__ 0.\n" % check_fn)
-            fh.write("Eval vm_compute in failing__.\n")
+            for f in fns:
+                fh.write("Definition failing_%s := (fix go (cs : list case) (i : N) : list N := match cs with [] => [] | c :: r => "
+                         "if %s c then go r (i + 1) else i :: go r (i + 1) end) cases__ 0.\n" % (f, f))
+                fh.write("Eval vm_compute in (%d, failing_%s).\n" % (fns.index(f), f))
         rc, out, err = sh(["coqtop", "-batch", "-Q", os.path.join(COQ, "theories"), "EV", "-l", path], cwd=ck.work, timeout=timeout)
         return rc, out + err
 
-    with ThreadPoolExecutor(max_workers=NCPU) as ex:
+    with ThreadPoolExecutor(max_workers=nshard) as ex:
         results = list(ex.map(run, range(nshard)))
-    failing, bad = [], False
+    res = {f: [] for f in fns}
+    bad = False
     for (rc, out), ids in zip(results, idxs):
-        m = re.search(r"=\s*\[(.*?)\]\s*:\s*list N", out, re.S)
-        if rc != 0 or "Error" in out or not m:
+        found = re.findall(r"=\s*\((\d+),\s*\[(.*?)\]\)\s*:\s*N \* list N", out, re.S)
+        if rc != 0 or "Error" in out or len(found) != len(fns):
             ck.tie_broken("correspondence evaluation %s did not compile/finish (model or checker broken)" % name, out[-3000:])
             bad = True
             continue
-        for x in re.findall(r"\d+", m.group(1)):
-            failing.append(ids[int(x)])
-    return None if bad else sorted(failing)
+        for k, body in found:
+            for x in re.findall(r"\d+", body):
+                res[fns[int(k)]].append(ids[int(x)])
+    return None if bad else {f: sorted(v) for f, v in res.items()}
 
 
 def txt(cps):
@@ -155,18 +159,18 @@ def correspondence(ck, binpath, n):
     if rc != 0:
         ck.tie_broken("harness c17 corr failed", err[-2000:])
         return
-    cases = [json.loads(l) for l in out.splitlines() if l.strip()]
+    cases = [json.loads(l) for l in out.split("\n") if l.strip()]
     cases = [c for c in cases if not c.get("panic")]
     terms = [case_to_coq(c) for c in cases]
     prelude = "Definition env0 : env := %s.\n" % ENV_COQ
-    failing = coq_failing_batch(ck, "corr", terms, ["EV.C17.Model", "EV.C17.Corr"], prelude=prelude)
-    if failing is None:
+    res = coq_eval_batch(ck, "corr", terms, ["EV.C17.Model", "EV.C17.Corr"], fns=("check_case", "defined_case"), prelude=prelude)
+    if res is None:
         return
+    failing, undefined = res["check_case"], res["defined_case"]
     for i in failing[:10]:
         c = cases[i]
         ck.tie_broken("model/implementation disagreement on annotation %r (rendered %r)" % (txt(c["text"]), txt(c["r"])),
                       json.dumps(c)[:3000])
-    undefined = coq_failing_batch(ck, "cover", terms, ["EV.C17.Model", "EV.C17.Corr"], check_fn="defined_case", prelude=prelude)
     ck.cov["traces_validated_against_impl"] += len(terms)
     modelled = sum(1 for c in cases if opt_ty(c.get("t0")) != "None")
     for c in cases:
@@ -192,7 +196,7 @@ def search(ck, binpath, n):
     if rc != 0:
         ck.tie_broken("harness c17 search failed", err[-2000:])
         return
-    for l in out.splitlines():
+    for l in out.split("\n"):
         if not l.strip():
             continue
         v = json.loads(l)
@@ -212,7 +216,7 @@ def replay(ck, binpath, path):
         if t is None:
             continue
         rc, out, err = ck.run_bin(binpath, ["one", "--text", t])
-        for l in out.splitlines():
+        for l in out.split("\n"):
             vv = json.loads(l)
             if vv.get("verdict") == "Differs":
                 ck.violation(vv["signature"], "type %r renders as %r, which reads back as a different type" % (t, vv["rendered"]),
@@ -237,7 +241,7 @@ def main(argv):
     if bins:
         ck.log("correspondence")
         if ok or os.path.exists(os.path.join(COQ, "theories/C17/Corr.vo")):
-            correspondence(ck, bins["c17"], ck.scale(1500, 20000))
+            correspondence(ck, bins["c17"], ck.scale(1000, 20000))
         ck.log("search")
         if ck.broken:
             ck.deep = True
